@@ -901,7 +901,12 @@ JITTER_TM = {
                  "  first | done | rfl | simp"),
     "next_u32": ("∀ st, Ext.JitterRng.next_u32 st = Jitter.nextU32 st", ["C12", "C05", "C16"],
                  "intro st\n  unfold Ext.JitterRng.next_u32 Jitter.nextU32\n  simp only [JitterRng.next_u64, bind_assoc, pure_bind]\n"
-                 "  first | done | rfl | (split <;> simp) | simp"),
+                 "  first | done | rfl | (split <;> simp; done) | (simp; done) |\n"
+                 "    (cases h : st.halfUsed\n"
+                 "     · simp only [h, Bool.not_false, Bool.false_eq_true, if_true, if_false, ite_true, ite_false]\n"
+                 "       rw [Jitter.nextU64_value_is_data st]\n"
+                 "       simp only [map_eq_pure_bind, bind_assoc, pure_bind]\n"
+                 "     · simp [h])"),
     "fill_bytes": ("∀ st n, Ext.JitterRng.fill_bytes st n = Jitter.fill n st", ["C12", "C05", "C16"],
                    "intro st n\n  exact Jitter.TM.fill_tie Ext.JitterRng.next_u32 JitterRng.next_u32 Ext.JitterRng.next_u64 JitterRng.next_u64 st n"),
 }
